@@ -92,6 +92,9 @@ EditSeq == <<
   E("minLength_raised",      "minLength", 2, {"STR"}),
   E("maxLength_lowered",     "maxLength", 2, {"STR"}),
   E("minLength_added",       "minLength", 2, {"STRPLAIN"}),
+  \* bounds whose value is zero: they constrain nothing, but their addition and removal must mirror (C14)
+  E("minLength0_added",      "minLength", 0, {"STRPLAIN"}),
+  E("minItems0_added",       "minItems", 0, {"ARRPLAIN"}),
   E("maxLength_added",       "maxLength", 2, {"STRPLAIN"}),
   E("pattern_added",         "pattern", "P_a_prefix", {"STRPLAIN", "STR"}),
   E("pattern_changed",       "pattern", "P_len2", {"STRPAT"}),
